@@ -23,6 +23,9 @@ IxSpec(s) == { [n |-> i, t |-> s.idx[i].t, uq |-> s.idx[i].uq, cols |-> s.idx[i]
 SchemaEq(s, o) == /\ DOMAIN s.tabs = DOMAIN o.T
                   /\ DOMAIN s.tabs = Range(o.tn)
                   /\ \A t \in DOMAIN s.tabs : ColNames(s.tabs[t]) = o.C[t]
+                  \* the catalog's own copy of the column list and the width of every stored row agree with the declared columns
+                  /\ (("CC" \in DOMAIN o) => \A t \in DOMAIN s.tabs : t \in DOMAIN o.CC /\ o.CC[t] = o.C[t])
+                  /\ \A t \in DOMAIN s.tabs : \A i \in 1..Len(o.T[t]) : Len(o.T[t][i]) = Len(o.C[t])
                   /\ IxSpec(s) = IxSet(o)
                   /\ DOMAIN s.views = Range(o.vw)
 DataEq(s, o)   == \A t \in DOMAIN s.tabs : ObsBagEq(s.tabs[t].rows, o.T[t])
@@ -40,8 +43,11 @@ ExpUserIndex(o, ix) ==
        key(i) == [j \in 1..Len(ix.cols) |-> IdxKeyVal(rows[i][ColPos(o, ix.t, ix.cols[j].c)], ix.cols[j].plen)]
    IN { [k |-> key(i), p |-> { j - 1 : j \in { j \in 1..Len(rows) : key(j) = key(i) } }] : i \in 1..Len(rows) }
 ObsIndex(ents) == { [k |-> ents[i][1], p |-> Range(ents[i][2])] : i \in 1..Len(ents) }
+\* a disk-backed index is read back by key lookups (ic) plus the list of all stored row ids (ia): no stale entries
+\* means that list is exactly the positions 0 .. n-1, once each
+AllIdsOk(o, ix) == (("ia" \in DOMAIN o) /\ (ix.n \in DOMAIN o.ia)) => o.ia[ix.n] = [k \in 1..Len(o.T[ix.t]) |-> k - 1]
 UserIndexOk(o) == \A i \in 1..Len(o.ix) : o.ix[i].t \in DOMAIN o.T =>
-                    (o.ix[i].n \in DOMAIN o.ic /\ ObsIndex(o.ic[o.ix[i].n]) = ExpUserIndex(o, o.ix[i]))
+                    (o.ix[i].n \in DOMAIN o.ic /\ ObsIndex(o.ic[o.ix[i].n]) = ExpUserIndex(o, o.ix[i]) /\ AllIdsOk(o, o.ix[i]))
 ExpHash(o, t, cols) ==
    LET rows == o.T[t] key(i) == [j \in 1..Len(cols) |-> rows[i][ColPos(o, t, cols[j])]] IN
    { [k |-> key(i), p |-> i - 1] : i \in { i \in 1..Len(rows) : ~HasNullKey(key(i)) } }
@@ -66,7 +72,8 @@ Step(e) ==
   ELSE
   LET exp0 == Apply(st, e.a)
       \* where the specification also allows the statement to be rejected, follow the implementation's choice
-      exp == IF exp0.alt = "err" /\ OutClass(e.out) = "err" THEN Fail(st) ELSE exp0
+      exp == IF exp0.alt = "err" /\ OutClass(e.out) = "err" THEN Fail(st)
+             ELSE IF exp0.alt = "ok" /\ e.out = "ok" THEN Ok(st, 0) ELSE exp0
       o   == e.st
   IN IF e.out = "panic" THEN
         /\ bad' = IF NBad("panic") < MaxBad THEN Append(bad, BadRec(e, "panic", exp.out, "", <<>>)) ELSE bad
@@ -81,10 +88,12 @@ Step(e) ==
          stOk    == StateEq(exp.st, o)
          isQ     == e.a.a = "q" /\ exp.out = "ok" /\ outOk
          rowsOk  == ~isQ \/ AcceptRes(e.a.q, EvalQ(e.a.q, DbOf(st), <<>>), e.rows)
+         \* repeated execution (harness option --twice): the second answer must be acceptable too (C04)
+         rptOk   == ~isQ \/ ("rows2" \notin DOMAIN e) \/ (e.out2 = e.out /\ AcceptRes(e.a.q, EvalQ(e.a.q, DbOf(st), <<>>), e.rows2))
          cntOk   == ~(e.a.a \in {"del", "upd", "ins", "inssel"} /\ exp.out = "ok" /\ outOk) \/ e.cnt = exp.cnt
          idxOk   == ~(outOk /\ stOk) \/ IndexInv(exp.st, o)
-         what    == IF ~outOk THEN "out" ELSE IF ~stOk THEN "state" ELSE IF ~rowsOk THEN "rows" ELSE IF ~cntOk THEN "cnt"
-                    ELSE IF ~idxOk THEN "index" ELSE ""
+         what    == IF ~outOk THEN "out" ELSE IF ~stOk THEN "state" ELSE IF ~rowsOk THEN "rows" ELSE IF ~rptOk THEN "repeat"
+                    ELSE IF ~cntOk THEN "cnt" ELSE IF ~idxOk THEN "index" ELSE ""
          dev     == IF what = "" THEN "" ELSE Deviation(st, e, exp, what)
          base    == IF outOk THEN exp.st ELSE st
          want    == IF what = "rows" THEN EvalQ(e.a.q, DbOf(st), <<>>).rows
@@ -93,7 +102,7 @@ Step(e) ==
         /\ cnt' = [cnt EXCEPT !.ok = IF what = "" THEN @ + 1 ELSE @,
                               !.known = IF what # "" /\ dev # "" THEN @ + 1 ELSE @,
                               !.queries = IF isQ THEN @ + 1 ELSE @]
-        /\ IF what \in {"", "rows", "cnt", "index"} THEN st' = exp.st /\ synced' = TRUE
+        /\ IF what \in {"", "rows", "repeat", "cnt", "index"} THEN st' = exp.st /\ synced' = TRUE
            ELSE IF SchemaEq(base, o) /\ base.txn.active = o.txn THEN st' = Adopt(base, o) /\ synced' = TRUE
            ELSE st' = st /\ synced' = FALSE
 
